@@ -375,6 +375,26 @@ def Flat.finish (cat : Nat → Nat → Bool) (hasSub : Bool) (f : Flat) : Flat :
 def build (cat : Nat → Nat → Bool) (neg : Bool) (items : List Item) (hasSub : Bool) : Flat :=
   (buildItems cat neg items).finish cat hasSub
 
+/-- a class expression as written: `[` (`^`)? items… (`-` subtracted class)? `]` -/
+inductive Ast where
+  | leaf (neg : Bool) (items : List Item)
+  | minus (neg : Bool) (items : List Item) (sub : Ast)
+  deriving Repr
+
+/-- set algebra over the parts of a written class -/
+def Ast.mem (cat : Nat → Nat → Bool) : Ast → Nat → Bool
+  | .leaf neg items, ch => items.any (fun it => it.mem cat ch) != neg
+  | .minus neg items sub, ch => (items.any (fun it => it.mem cat ch) != neg) && !(Ast.mem cat sub ch)
+
+/-- what `scanCharSet` (recursively, without IgnoreCase) returns for a written class -/
+def Ast.parse (cat : Nat → Nat → Bool) : Ast → Class
+  | .leaf neg items => .leaf (build cat neg items false)
+  | .minus neg items sub => .minus (build cat neg items true) (Ast.parse cat sub)
+
+def Ast.items : Ast → List Item
+  | .leaf _ items => items
+  | .minus _ items sub => items ++ Ast.items sub
+
 /-! ## Singleton reduction (`reduceSet`) -/
 
 /-- `IsSingleton` -/
